@@ -36,6 +36,33 @@ DIRECTED = {
         op(o="spawn", t=0), op(o="spawn", t=1), IDLE, op(o="release", id=0, out="ret"), IDLE,
         op(o="hstart", kind="flush"), IDLE, op(o="cancel", ids=[1]), IDLE,
         op(o="release_cb", id=0, which="ecb"), IDLE, DRAIN, {"c": "probe", "k": 2}),
+    # ... and the error cancel() reports for a task in transit while / after a flush (C06.err with flush in the history)
+    "flush_then_cancel_probe": S(
+        {"cls": "TaskPool", "size": 2, "reqs": [{"kind": "apply", "num": 1, "ecb": "async"},
+                                                 {"kind": "apply", "num": 1, "ccb": "async", "ecb": "sync"}]},
+        op(o="spawn", t=0), op(o="spawn", t=1), IDLE, op(o="release", id=0, out="ret"), IDLE,
+        op(o="hstart", kind="flush"), IDLE, op(o="cancel", ids=[1]), IDLE,
+        op(o="release_cb", id=0, which="ecb"), IDLE, op(o="cancel", ids=[1]), op(o="cancel", ids=[0]),
+        op(o="cancel", ids=[1, 0]), DRAIN, op(o="cancel", ids=[1]), op(o="hstart", kind="flush"), IDLE,
+        op(o="cancel", ids=[1]), op(o="cancel", ids=[0, 7])),
+    # two overlapping flushes sharing a task in their snapshots (C13), one with return_exceptions
+    "flush_overlapping": S(
+        {"cls": "TaskPool", "size": 3, "reqs": [{"kind": "apply", "num": 2, "ecb": "async"}]},
+        op(o="spawn", t=0), IDLE, op(o="release", id=0, out="ret"), IDLE, op(o="hstart", kind="flush", re=True), IDLE,
+        op(o="release", id=1, out="exc"), IDLE, op(o="hstart", kind="flush", re=True), IDLE,
+        op(o="release_cb", id=0, which="ecb"), IDLE, op(o="release_cb", id=1, which="ecb"), IDLE,
+        op(o="cancel", ids=[0]), op(o="cancel", ids=[1]), DRAIN),
+    # stop() on a SimpleTaskPool whose running ids have gaps, negative and oversized arguments (C14)
+    "stop_with_gaps": S(
+        {"cls": "SimpleTaskPool", "size": -1, "simple": {"ccb": "async"}},
+        op(o="spawn", num=4), IDLE, op(o="cancel", ids=[2]), IDLE, op(o="stop", n=-1), op(o="stop", n=2), IDLE,
+        op(o="stop", n=1), op(o="release_cb", id=2, which="ccb"), IDLE, op(o="spawn", num=2), IDLE, op(o="stop", n=9), DRAIN),
+    # rejected requests while locked / closed, then the next accepted start must continue the index (C09)
+    "rejected_start_keeps_index": S(
+        {"cls": "SimpleTaskPool", "size": 2, "simple": {}},
+        op(o="spawn", num=1), IDLE, op(o="lock"), op(o="spawn", num=1), op(o="spawn", num=2), op(o="unlock"),
+        op(o="spawn", num=1), IDLE, op(o="get_ids", names=["start-group-1"]), op(o="hstart", kind="gac"), DRAIN,
+        op(o="spawn", num=1), op(o="unlock"), op(o="spawn", num=1)),
     # KF-B: pool_size getter / setter
     "kf_b_get": S(
         {"cls": "TaskPool", "size": 3, "reqs": [{"kind": "apply", "num": 2}]},
